@@ -83,6 +83,26 @@ def check_graph_constraints(relation_graph: nx.DiGraph) -> None:
     check_cycles(relation_graph)
 
 
+def find_root_node(graph: nx.DiGraph) -> T:
+    """The root of a relation graph: its first node in topological order.
+
+    A node whose relations were all dropped (because their source types are not part of the
+    typeset) has no incoming edge either; such an orphan must not take the place of Generic.
+
+    Args:
+        graph: the graph to search
+
+    Returns:
+        The root node
+    """
+    root_node = next(nx.topological_sort(graph))
+    if not issubclass(root_node, Generic):
+        for node in graph.nodes:
+            if issubclass(node, Generic) and graph.in_degree(node) == 0:
+                return node
+    return root_node
+
+
 def check_isolates(graph: nx.DiGraph) -> None:
     """Check for orphaned nodes.
 
@@ -91,7 +111,7 @@ def check_isolates(graph: nx.DiGraph) -> None:
 
     """
     nodes = set(graph.nodes)
-    root_node = next(nx.topological_sort(graph))
+    root_node = find_root_node(graph)
 
     isolates = list(set(nx.isolates(graph)) - {root_node})  # root can be isolate
     graph.remove_nodes_from(isolates)
@@ -261,7 +281,7 @@ class VisionsTypeset:
             A cached copy of the relation_graphs root node.
         """
         if self._root_node is None:
-            self._root_node = next(nx.topological_sort(self.relation_graph))
+            self._root_node = find_root_node(self.relation_graph)
         return self._root_node
 
     def detect(self, data: Any) -> Tuple[Sequence, Any, dict]:
